@@ -9,6 +9,7 @@ mod u_members;
 mod u_readers;
 mod u_packfmt;
 mod u_syncmsg;
+mod u_schema;
 
 #[global_allocator]
 static GLOBAL: u_readers::Counting = u_readers::Counting;
@@ -29,6 +30,7 @@ fn main() {
         ("search", "c09_readers") => u_readers::search(),
         ("search", "c09_packfmt") => u_packfmt::search(),
         ("search", "c09_syncmsg") => u_syncmsg::search(),
+        ("search", "c15_schema") => u_schema::search(),
         ("run", "c09_syncmsg") => u_syncmsg::run(rest),
         _ => {
             eprintln!("unknown unit {unit}");
